@@ -19,7 +19,7 @@ META = {
                    'enumerated over the size parameter only (weakest obligations of the set).',
     'bounds': {'quick': 'ising d<=4; exciton n<=4; co_oxidation order 2-3 (TT column sums up to order 5); two_step m<=2; kuramoto/fpu d<=4; qft n<=3; qfan<=2; '
                         'signaling_cascade d<=3 (column sums in TT form); rgb_fractal 2x2 level<=2',
-               'thorough': 'qft n=4, co_oxidation order 4 dense, larger TT-form sizes'},
+               'thorough': 'co_oxidation order 4 dense, qft gate groups up to n=7, larger TT-form sizes (the product == DFT identity at n=4 does not finish: z3 ignores its timeout; not claimed)'},
     'outside': ['toll_station (its SLIM call truncates with threshold 1e-14 on rates built from exp/sqrt/pi constants: only its reaction lists are checked: every '
                 'product state is inside the state space and rates are positive expressions)', 'sizes beyond the bounds', 'float-literal constants are taken as the '
                 'IEEE doubles the source denotes'],
@@ -337,7 +337,7 @@ def _trig_axioms(ctx, n):
     return ax
 
 
-@scenario('C13', 'qft', lambda tier: [{'n': n, 'inverse': inv} for n in ((1, 2, 3) if tier == 'quick' else (1, 2, 3, 4)) for inv in (False, True)])
+@scenario('C13', 'qft', lambda tier: [{'n': n, 'inverse': inv} for n in (1, 2, 3) for inv in (False, True)])
 def qft(ctx, n, inverse):
     """qft(n)/iqft(n): every gate group is unitary; the product of the groups == bit-reversed DFT (its complex conjugate for iqft)"""
     mdl = ctx.R.models
